@@ -300,6 +300,7 @@ struct CRun {
     var_ids: HashMap<usize, usize>,     // variable -> serial of the object it holds
     serial: usize,
     ctxs: Vec<*mut HCtx>,
+    cov_label: String,
 }
 
 struct HCtx {
@@ -436,14 +437,30 @@ impl CRun {
         self.var_ids.remove(&var);
         self.vars.insert(var, CVal::Null);
     }
+    /// A `lol_html_str_t` result: `s0` = `data == NULL`, `se` = non-NULL with `len == 0`, `s1` = non-NULL,
+    /// non-empty (value: `null` / `len=0` / hex of the bytes).
     fn put_str(&mut self, dst: usize, s: RawStr) {
+        if std::env::var_os("VERIF_CAPI_COV").is_some() {
+            // development aid: which getter produced NULL / empty / non-empty (stderr)
+            let cls = if s.data.is_null() { "null" } else if s.len == 0 { "empty" } else { "nonempty" };
+            eprintln!("COV {} {cls}", self.cov_label);
+        }
         if s.data.is_null() {
-            self.c.log.push(obs("s0", ""));
+            self.c.log.push(obs("s0", "null"));
             self.null(dst);
         } else {
-            self.c.log.push(obs("s1", to_hex(&raw_bytes(s))));
+            let b = raw_bytes(s);
+            self.c.log.push(if b.is_empty() { obs("se", "len=0") } else { obs("s1", to_hex(&b)) });
             self.bind(dst, CVal::Str(s), "str");
         }
+    }
+    /// Same for a getter that lol_html.h documents without a NULL case (tag name, comment text, attribute
+    /// name/value, end-tag name): a NULL `data` breaks the header contract whatever the Rust run says.
+    fn put_str_never_null(&mut self, dst: usize, s: RawStr, getter: &str) {
+        if s.data.is_null() {
+            self.c.oracle.push(format!("C17:str-null-contract {getter} returned data == NULL; lol_html.h documents no NULL result for it (an empty string is non-NULL with len 0)"));
+        }
+        self.put_str(dst, s);
     }
 }
 
@@ -474,7 +491,8 @@ unsafe fn c_unit_op(run: *mut CRun, unit: Unit, op: &COp) {
                 (Unit::EndTag(t), 61) => lol_html_end_tag_name_get_preserve_case(t),
                 _ => panic!("bad-case strGet"),
             };
-            r.put_str(*dst, raw_of(s));
+            r.cov_label = format!("f{f}");
+            r.put_str_never_null(*dst, raw_of(s), &format!("string getter f={f}"));
         }
         COp::OptStrGet { dst, f, args } => {
             let (s, set) = with_err_probe(|| match (unit, *f) {
@@ -487,6 +505,7 @@ unsafe fn c_unit_op(run: *mut CRun, unit: Unit, op: &COp) {
                 (Unit::Doctype(d), 52) => lol_html_doctype_system_id_get(d),
                 _ => panic!("bad-case optStrGet"),
             });
+            r.cov_label = format!("f{f}");
             r.put_str(*dst, raw_of(s));
             if let Some(m) = set {
                 r.c.log.last_mut().unwrap().val.push_str(&format!("!{m}"));
@@ -742,7 +761,8 @@ unsafe fn c_unit_op(run: *mut CRun, unit: Unit, op: &COp) {
                 24 => lol_html_attribute_value_get(a),
                 _ => panic!("bad-case ag"),
             };
-            r.put_str(*dst, raw_of(s));
+            r.cov_label = format!("f{f}");
+            r.put_str_never_null(*dst, raw_of(s), &format!("attribute getter f={f}"));
         }
         COp::StrFree { v } => c_str_free(r, *v),
         COp::TakeLastError { dst } => c_take_last_error(r, *dst),
@@ -763,6 +783,7 @@ unsafe fn c_str_free(r: &mut CRun, v: usize) {
 unsafe fn c_take_last_error(r: &mut CRun, dst: usize) {
     let s = raw_of(lolhtml::errors::lol_html_take_last_error());
     TAKES.fetch_add(1, std::sync::atomic::Ordering::SeqCst);
+    r.cov_label = "take_last_error".into();
     r.put_str(dst, s);
 }
 
@@ -962,18 +983,19 @@ impl RRun {
     fn put_str(&mut self, dst: usize, s: Option<String>) {
         match s {
             None => {
-                self.c.log.push(obs("s0", ""));
+                self.c.log.push(obs("s0", "null"));
                 self.null(dst);
             }
             Some(s) => {
-                self.c.log.push(obs("s1", to_hex(s.as_bytes())));
+                // documented: only an absent value is NULL; `Some("")` is a non-NULL string of length 0
+                self.c.log.push(if s.is_empty() { obs("se", "len=0") } else { obs("s1", to_hex(s.as_bytes())) });
                 self.bind(dst, RVal::Str, "str");
             }
         }
     }
     /// Documented failure: the value `tok`, and the message becomes this thread's last error.
     fn fail(&mut self, tok: &str, msg: String) {
-        self.c.log.push(obs(tok, format!("!{msg}")));
+        self.c.log.push(obs(tok, format!("{}!{msg}", if tok == "s0" { "null" } else { "" })));
         self.last_err[self.c.tid] = Some(msg);
     }
 }
@@ -1504,6 +1526,7 @@ pub fn run(line: &str) -> String {
         var_ids: HashMap::new(),
         serial: 0,
         ctxs: vec![],
+        cov_label: String::new(),
     });
     let crp = &mut *crun as *mut CRun as usize;
     let calls = std::sync::Arc::new(case.calls.clone());
@@ -1599,7 +1622,11 @@ pub fn run(line: &str) -> String {
         toks.join(" ")
     };
     if c.fault.is_none() && rc.fault.is_none() {
-        if line_c != line_r {
+        let is_str = |t: &str| matches!(t, "s0" | "se" | "s1");
+        if let Some(i) = (0..c.log.len().min(rc.log.len())).find(|&i| c.log[i].tok != rc.log[i].tok && is_str(&c.log[i].tok) && is_str(&rc.log[i].tok)) {
+            // `None` <-> data == NULL, `Some("")` <-> non-NULL with len 0, `Some(v)` <-> the bytes of v
+            oracle.push(format!("C17:str-marshalling result #{i}: C `{}` ({}) / Rust `{}` ({})", c.log[i].tok, c.log[i].val, rc.log[i].tok, rc.log[i].val));
+        } else if line_c != line_r {
             oracle.push(format!("C17:c-vs-rust-codes C: {line_c} / Rust: {line_r}"));
         } else if let Some(i) = (0..c.log.len()).find(|&i| c.log[i].val != rc.log[i].val) {
             oracle.push(format!("C17:c-vs-rust-values result #{i}: C `{}` / Rust `{}`", c.log[i].val, rc.log[i].val));
